@@ -71,7 +71,7 @@ func ruleResizeOnHoldingNode(c *Ctx) {
 						continue
 					}
 					gc, isCall := unparen(rhs[i]).(*ast.CallExpr)
-					if !isCall || !p.IsCall(gc, "scheduler.PartitionContext.GetNode") || len(gc.Args) != 1 {
+					if !isCall || !p.IsCall(gc, "scheduler.PartitionContext.GetNode") || len(gc.Args) < 1 {
 						good = false
 						continue
 					}
@@ -258,7 +258,7 @@ func ruleGetOrCreateAtomic(c *Ctx) {
 			viaGetter := false
 			ast.Inspect(fn.Decl.Body, func(m ast.Node) bool {
 				if call, isCall := m.(*ast.CallExpr); isCall && call.Pos() < as.Pos() {
-					if cf := p.FuncOf[p.Callee(call)]; cf != nil && cf != fn && p.methodOf(cf, ls.Name) && len(call.Args) == 1 && p.Src(call.Args[0]) == p.Src(ix.Index) {
+					if cf := p.FuncOf[p.Callee(call)]; cf != nil && cf != fn && p.methodOf(cf, ls.Name) && len(call.Args) >= 1 && p.Src(call.Args[0]) == p.Src(ix.Index) {
 						if clf := la.funcs[cf]; clf != nil && clf.acquires[-1] > 0 {
 							lst := lf.stateAt(call)
 							if lst == nil || lst[ownerKey(sel.X)] == 0 {
